@@ -1293,9 +1293,20 @@ func (x *Exec) freshnessOf(st *State, r smt.T) smt.T {
 						continue
 					}
 					hn, hs := x.fieldHeap(pt.Elem(), i)
-					switch ft.Underlying().(type) {
+					switch fu := ft.Underlying().(type) {
 					case *types.Slice:
 						fs = append(fs, smt.Not(smt.Eq(r, sArr(smt.Select(x.heap(st, hn, hs), b.t)))))
+						// ... nor any of the objects such a buffer holds, if it is a buffer of references
+						if isTypeParam(fu.Elem()) {
+							break
+						}
+						switch fu.Elem().Underlying().(type) {
+						case *types.Pointer, *types.Interface, *types.Map, *types.Chan:
+							en, es := x.elemHeap(fu.Elem())
+							row := smt.Select(x.heap(st, en, es), sArr(smt.Select(x.heap(st, hn, hs), b.t)))
+							sel := "(select " + row.S + " i!n)"
+							fs = append(fs, smt.Raw("(forall ((i!n Int)) (! (not (= "+sel+" "+r.S+")) :pattern ("+sel+")))", smt.Bool))
+						}
 					case *types.Pointer, *types.Interface, *types.Map, *types.Chan:
 						fs = append(fs, smt.Not(smt.Eq(r, smt.Select(x.heap(st, hn, hs), b.t))))
 					}
